@@ -1387,7 +1387,7 @@ fn execute_routed(case: &str) -> String {
 // generators
 
 const RESERVED: [&str; 6] = ["te", "user-agent", "content-type", "grpc-message", "grpc-message-type", "grpc-status"];
-const ASCII_NAMES: [&str; 16] = [
+const ASCII_NAMES: [&str; 25] = [
     "x-a",
     "x-b",
     "x-c",
@@ -1404,6 +1404,16 @@ const ASCII_NAMES: [&str; 16] = [
     "a",
     "x-binx",
     "bin",
+    // request headers other middleware gives a meaning to (seed C12e: CORS preflight shape)
+    "origin",
+    "access-control-request-method",
+    "access-control-request-headers",
+    "accept",
+    "cookie",
+    "upgrade",
+    "connection",
+    "content-length",
+    "x-forwarded-for",
 ];
 const BIN_NAMES: [&str; 6] = ["x-bin", "trace-bin", "grpc-status-details-bin", "a-bin", "-bin", "X-Trace-BIN"];
 
@@ -1918,6 +1928,35 @@ pub fn generate(tier: &str, rng: &mut Rng) -> Vec<String> {
         let mut k = simple_call(H(vec![]));
         k.method = b"OPTIONS".to_vec();
         push(Case { kind: "corpus".into(), via: "new".into(), scripts: vec![Script { ops: vec![], rej: None }], calls: vec![k] });
+    }
+    // request shapes that OTHER middleware treats specially must get no special treatment here (seed C12e):
+    // every method x header sets (CORS preflight, CORS actual request, upgrade, health-check-ish GET) x an
+    // interceptor that accepts unchanged / inserts a header / rejects
+    {
+        let heads: Vec<Vec<(Vec<u8>, Vec<u8>, bool)>> = vec![
+            vec![hb("origin", "https://app.example"), hb("access-control-request-method", "POST")],
+            vec![hb("origin", "https://app.example"), hb("access-control-request-method", "POST"), hb("access-control-request-headers", "x-grpc-web,content-type")],
+            vec![hb("origin", "null")],
+            vec![hb("access-control-request-method", "POST")],
+            vec![hb("connection", "upgrade"), hb("upgrade", "websocket")],
+            vec![hb("accept", "*/*"), hb("x-forwarded-for", "10.0.0.1")],
+        ];
+        for m in ["OPTIONS", "POST", "GET", "HEAD", "CONNECT"] {
+            for h in &heads {
+                for via in ["new", "layer"] {
+                    for sc in 0..3 {
+                        let mut k = simple_call(H(h.clone()));
+                        k.method = m.as_bytes().to_vec();
+                        let script = match sc {
+                            0 => Script { ops: vec![], rej: None },
+                            1 => Script { ops: vec![Op::HIns(b"x-seen-by-interceptor".to_vec(), b"1".to_vec(), false)], rej: None },
+                            _ => Script { ops: vec![], rej: Some(Rej { ctor: 0, code: 16, msg: b"no credentials".to_vec(), details: vec![], src: false, md: H(vec![]) }) },
+                        };
+                        push(Case { kind: "corpus".into(), via: via.into(), scripts: vec![script], calls: vec![k] });
+                    }
+                }
+            }
+        }
     }
     // (3) every reserved name present twice, identity interceptor; then each removed / replaced
     {
